@@ -5,4 +5,6 @@ export CARGO_NET_OFFLINE=true
 cd "$ROOT/harness" || exit 2
 FLAGS="--cfg poulpy_verif -C target-feature=+avx2,+fma"
 RUSTFLAGS="$FLAGS" cargo build --profile checked --target-dir target-checked --workspace || exit 2
+# AddressSanitizer build of the HAL binary (C17)
+RUSTFLAGS="$FLAGS -Zsanitizer=address" cargo build --profile checked --target x86_64-unknown-linux-gnu --target-dir target-asan -p pzv-hal || exit 2
 exit 0
